@@ -461,6 +461,62 @@ func checkC14(rep *core.Report) {
 	if nMQ == 0 {
 		r5.Undecided("Producer.MQ", token.NoPos, "no construction of a Producer found")
 	}
+	// ---- R14.6 ---- the connection in use is given up only for a replacement
+	r6 := rep.Rule("R14.6", "inside the delivery loop a back-end connection kept in the driver is closed only after its replacement has been stored", 5)
+	for _, p := range prods {
+		name := core.FuncName(p.input)
+		if p.loop == nil || len(p.input.Params) == 0 {
+			continue
+		}
+		recvP := ssa.Value(p.input.Params[0])
+		n := 0
+		allInstrs(p.input, func(ins ssa.Instruction) {
+			c, ok := ins.(ssa.CallInstruction)
+			if !ok || !p.loop.Blocks[ins.Block()] {
+				return
+			}
+			com := c.Common()
+			isClose := (com.IsInvoke() && com.Method.Name() == "Close") || (com.StaticCallee() != nil && com.StaticCallee().Name() == "Close")
+			if !isClose {
+				return
+			}
+			var closed ssa.Value
+			if com.IsInvoke() {
+				closed = com.Value
+			} else if len(com.Args) > 0 {
+				closed = com.Args[0]
+			}
+			ld, isLoad := stripConv(closed).(*ssa.UnOp)
+			if !isLoad || ld.Op != token.MUL {
+				return
+			}
+			fa, isFA := ld.X.(*ssa.FieldAddr)
+			if !isFA || core.AddrRoot(fa) != recvP {
+				return
+			}
+			n++
+			_, fld, _ := core.FieldOf(fa)
+			replaced := false
+			allInstrs(p.input, func(i2 ssa.Instruction) {
+				st, ok := i2.(*ssa.Store)
+				if !ok {
+					return
+				}
+				fa2, ok := st.Addr.(*ssa.FieldAddr)
+				if !ok || core.AddrRoot(fa2) != recvP || fa2.Field != fa.Field {
+					return
+				}
+				if core.InstrDominates(ld, st) && core.InstrDominates(st, ins) {
+					replaced = true
+				}
+			})
+			r6.Check(replaced, name+":close-after-replace:"+fld.Name(), ins.Pos(), "closes the old connection after the new one is in place",
+				"the connection in "+fld.Name()+" is closed while it is still the one in use (no replacement stored before): if the re-dial that follows fails, every later write fails on a connection the driver closed itself, the error no longer looks like a broken peer, and delivery never resumes")
+		})
+		if n == 0 {
+			r6.OK(name+":no-close-in-loop", p.input.Pos(), "the delivery loop closes no connection it keeps using")
+		}
+	}
 }
 
 func sendsTo(ins ssa.Instruction, params []*ssa.Parameter) bool {
